@@ -4,6 +4,7 @@ datum, `Prim.display` on readable values, `Eval.readLiteral` on their data, stru
 -/
 import RuschmSpec.Print
 import RuschmProofs.ReadLemmas
+import RuschmModel.Interp
 
 namespace Ruschm.Print
 open Ruschm Ruschm.Text Ruschm.Lex
@@ -988,5 +989,87 @@ theorem readableN_vec (σ : Store) (n : Nat) (id : Nat) (h : readableN σ n (.ve
       simp only [datumN, datumStep, hc, Datum.vec.injEq, and_true]
       exact List.map_congr_left (fun x hx' => (datumN_succ σ n x (hx x hx')).symm)
     next => simp at h
+
+/-! ## evaluating `'<text>` -/
+
+theorem toStatement_quote (f : Nat) (d : Datum) (l₁ l₂ l₃ l₄ : Loc) (env : Xform.SynEnv) :
+    Xform.toStatement (f + 1) (.pair (.sym "quote" l₁) (.pair d (.nil l₂) l₃) l₄) env
+      = (.ok (.expr (.quote d l₄)), env) := by
+  unfold Xform.toStatement
+  simp [Macro.popProper, Xform.lift, bind, Datum.elems, Datum.spine, Xform.need, pure, Datum.loc]
+
+/-- a datum that is `(quote D)` up to locations -/
+theorem quote_shape (q D : Datum)
+    (h : q.strip = .pair (.sym "quote" none) (.pair D (.nil none) none) none) :
+    ∃ d l₁ l₂ l₃ l₄, q = .pair (.sym "quote" l₁) (.pair d (.nil l₂) l₃) l₄ ∧ d.strip = D := by
+  cases q with
+  | pair a r l₄ =>
+    simp only [Datum.strip, Datum.pair.injEq, and_true] at h
+    obtain ⟨ha, hr⟩ := h
+    cases a with
+    | sym s l₁ =>
+      simp only [Datum.strip, Datum.sym.injEq, and_true] at ha
+      subst ha
+      cases r with
+      | pair d n l₃ =>
+        simp only [Datum.strip, Datum.pair.injEq, and_true] at hr
+        obtain ⟨hd, hn⟩ := hr
+        cases n with
+        | nil l₂ => exact ⟨d, l₁, l₂, l₃, l₄, rfl, hd⟩
+        | _ => simp [Datum.strip] at hn
+      | _ => simp [Datum.strip] at hr
+    | _ => simp [Datum.strip] at ha
+  | _ => simp [Datum.strip] at h
+
+theorem evalAst_quote (k : Nat) (st : Interp.State) (d : Datum) (l : Loc) (w : Value) (σ' : Store)
+    (h : Eval.readLiteral st.store d = (.ok w, σ')) :
+    ∃ st', Interp.evalAst (k + 1) st (.expr (.quote d l)) = (.ok (some w), st') ∧
+      st'.store = σ' ∧ st'.env = st.env := by
+  unfold Interp.evalAst
+  by_cases hi : st.importEnd = true
+  · simp [hi, Interp.evalExprOrDef, Eval.evalExpr, h]
+  · simp [hi, Interp.evalExprOrDef, Eval.evalExpr, h]
+
+theorem evalText_quote (k : Nat) (st : Interp.State) (D : Datum) (hD : SupportedD D)
+    (hs : D.strip = D) (w : Value) (σ' : Store)
+    (h : Eval.readLiteral st.store D = (.ok w, σ')) :
+    ∃ st', Interp.evalText (k + 1) st ('\'' :: renderDatum D (printerLayout D))
+        = (.ok (some w), st') ∧ st'.store = σ' ∧ st'.env = st.env := by
+  have hx : (Syn.quote (Syn.ofDatum D)).Supported := ofDatum_supported D hD
+  have hl : ValidLayout (Syn.quote (Syn.ofDatum D)).toks ([] :: printerLayout D) := by
+    refine ⟨rfl, rfl, validLayout_printerLayout D hD⟩
+  have ht : '\'' :: renderDatum D (printerLayout D)
+      = interleave (Syn.quote (Syn.ofDatum D)).toks ([] :: printerLayout D) := by
+    simp [Syn.toks, interleave, renderTok, renderDatum, Syn.render]
+  obtain ⟨l1, l2⟩ := all_render _ _ (toks_supported _ hx) hl
+  rw [← ht] at l1 l2
+  generalize htext : '\'' :: renderDatum D (printerLayout D) = text at l1 l2
+  obtain ⟨q, s', n1, n2, n3, n4⟩ := nextDatum_spec _ hx (Read.ofText text) (Lex.all text).1 []
+    l1 (by simp [Read.ofText])
+  have n4' : s'.lexErr = none := by rw [n4]; simpa [Read.ofText] using l2
+  obtain ⟨s'', n5⟩ := nextDatum_end s' n3 n4'
+  have hq : q.strip = .pair (.sym "quote" none) (.pair D (.nil none) none) none := by
+    rw [n2]; simp [Syn.denote, ofDatum_denote, hs]
+  obtain ⟨d, l₁, l₂, l₃, l₄, rfl, hd⟩ := quote_shape q D hq
+  have hr : Eval.readLiteral st.store d = (.ok w, σ') := by
+    rw [← readLiteral_strip d, hd]; exact h
+  obtain ⟨st', a1, a2, a3⟩ := evalAst_quote k { st with syn := st.syn } d l₄ w σ' hr
+  have hlen : ∃ m, (Read.ofText text).toks.length = m + 1 := by
+    have : ((Lex.all text).1.map (·.tok)).length = (Syn.quote (Syn.ofDatum D)).toks.length := by
+      rw [l1]
+    simp only [List.length_map, Syn.toks, List.length_cons] at this
+    exact ⟨_, by simpa [Read.ofText] using this⟩
+  obtain ⟨m, hm⟩ := hlen
+  refine ⟨st', ?_, a2, a3⟩
+  unfold Interp.evalText
+  simp only [hm]
+  unfold Interp.evalText.go
+  simp only [n1]
+  have hf : Xform.xformFuel (.pair (.sym "quote" l₁) (.pair d (.nil l₂) l₃) l₄)
+      = (8 * (Datum.pair (.sym "quote" l₁) (.pair d (.nil l₂) l₃) l₄).size + 3999) + 1 := rfl
+  rw [hf, toStatement_quote]
+  simp only [a1]
+  unfold Interp.evalText.go
+  simp only [n5]
 
 end Ruschm.Print
